@@ -263,22 +263,40 @@ def rules_selection(run):
             if lp2 is not None and lp2 is not L_pr and isinstance(a0, ast.Name) and isinstance(lp2.target, ast.Name) and a0.id == lp2.target.id:
                 it = strip_cast(lp2.iter)
                 if isinstance(it, ast.Call) and it.args and isinstance(it.args[0], ast.Name) and it.args[0].id == srcv:
-                    selector = it.func
+                    selector = strip_cast(it.func)
+                    alts = []
                     if isinstance(selector, ast.Name):
-                        vals = q.assigned_value(F, selector.id)
-                        okk = len(vals) == 2
-                        for st, v in vals:
-                            sh = dotted(strip_cast(v)) or ''
-                            at2 = guard_atoms(st)
-                            if sh.endswith('.ancestors_for'):
-                                okk = okk and at2 == [('truthy', 'inner_first', '')]
-                            elif sh.endswith('.descendants_for'):
-                                okk = okk and at2 == [('falsy', 'inner_first', '')]
+                        for st, v in q.assigned_value(F, selector.id):
+                            v = strip_cast(v)
+                            if isinstance(v, ast.IfExp):
+                                c_ = q.canon_atom(v.test)
+                                if c_ and c_[0] == 'truthy' and c_[1] == 'inner_first':
+                                    alts.append((v.body if c_[3] else v.orelse, [('truthy', 'inner_first', '')]))
+                                    alts.append((v.orelse if c_[3] else v.body, [('falsy', 'inner_first', '')]))
+                                else:
+                                    alts.append((v, [('?', q.unparse(v.test), '')]))
                             else:
-                                okk = False
-                        sel_added = okk
-                    elif dotted(selector) and dotted(selector).endswith('.ancestors_for'):
-                        sel_added = True
+                                alts.append((v, guard_atoms(st)))
+                    elif isinstance(selector, ast.IfExp):
+                        c_ = q.canon_atom(selector.test)
+                        if c_ and c_[0] == 'truthy' and c_[1] == 'inner_first':
+                            alts.append((selector.body if c_[3] else selector.orelse, [('truthy', 'inner_first', '')]))
+                            alts.append((selector.orelse if c_[3] else selector.body, [('falsy', 'inner_first', '')]))
+                    else:
+                        alts.append((selector, [('truthy', 'inner_first', '')]) if (dotted(selector) or '').endswith('.ancestors_for') else (selector, []))
+                    okk = len(alts) >= 1
+                    kinds = set()
+                    for v, at2 in alts:
+                        sh = dotted(strip_cast(v)) or ''
+                        if sh.endswith('.ancestors_for'):
+                            okk = okk and at2 == [('truthy', 'inner_first', '')]
+                            kinds.add('anc')
+                        elif sh.endswith('.descendants_for'):
+                            okk = okk and at2 == [('falsy', 'inner_first', '')]
+                            kinds.add('desc')
+                        else:
+                            okk = False
+                    sel_added = okk and 'anc' in kinds
         run.check(src_added, r, fi.short, '(c) the source itself is ignored after a hit', 'source must join the ignore set', L_pr)
         run.check(sel_added, r, fi.short, '(c) ancestors (inner-first) / descendants (outer-first) of the source are ignored',
                   'the states given by the inner-first selector applied to the source must join the ignore set', L_pr)
